@@ -111,6 +111,7 @@ type State struct {
 	ghost map[string]*Value
 	notes []string // imprecision notes
 	dead  bool
+	lockSnap *State // state right after the first guarded Lock on this path (for locked(e))
 }
 
 func (s *State) clone() *State {
@@ -130,6 +131,7 @@ func (s *State) clone() *State {
 	}
 	n.held = append([]heldLock(nil), s.held...)
 	n.notes = append([]string(nil), s.notes...)
+	n.lockSnap = s.lockSnap
 	if s.frame != nil {
 		n.frame = s.frame.clone()
 	}
@@ -712,7 +714,7 @@ func tryMerge(a, b *State) *State {
 	if a.frame.fn != b.frame.fn || a.frame.parent != b.frame.parent {
 		return nil
 	}
-	if len(a.held) != len(b.held) || len(a.frame.defers) != len(b.frame.defers) {
+	if len(a.held) != len(b.held) || len(a.frame.defers) != len(b.frame.defers) || a.lockSnap != b.lockSnap {
 		return nil
 	}
 	for i := range a.held {
@@ -760,11 +762,18 @@ func tryMerge(a, b *State) *State {
 	// Heaps that differ are not merged: ite-terms over (arrays of) arrays make the array theory reasoning of the
 	// solvers explode. Such states continue as separate paths.
 	if mergeHeapStrict {
-		if len(a.heap) != len(b.heap) {
-			return nil
-		}
+		// a key that one state never touched still has its initial value there
 		for h, ta := range a.heap {
-			if tb, ok := b.heap[h]; !ok || tb != ta {
+			tb, ok := b.heap[h]
+			if !ok {
+				tb = Const("H0!"+h, ta.sort)
+			}
+			if tb != ta {
+				return nil
+			}
+		}
+		for h, tb := range b.heap {
+			if _, ok := a.heap[h]; !ok && tb != Const("H0!"+h, tb.sort) {
 				return nil
 			}
 		}
@@ -806,6 +815,7 @@ func tryMerge(a, b *State) *State {
 	}
 	n.wm = Ite(ca, a.wm, b.wm)
 	n.held = a.held
+	n.lockSnap = a.lockSnap
 	seen := map[string]bool{}
 	for _, x := range a.notes {
 		if !seen[x] {
